@@ -482,8 +482,9 @@ func (db *MultiBucketBackend) PutObject(
 	// once it has been received in full: an upload that fails, is rejected or is
 	// still in progress must not truncate the existing object (which may also
 	// be the source the body is being copied from).
-	// (The backend's lock is held, so one fixed name per directory suffices.)
-	tmpFilePath := filepath.Join(objectDir, ".gofakes3-upload.tmp")
+	// (The backend's lock is held, so one name per directory suffices; it must
+	// not be the name of a stored object, as every file name is a valid key.)
+	tmpFilePath := scratchName(db.bucketFs, objectDir, ".gofakes3-upload.tmp", objectFilePath)
 	f, err := db.bucketFs.OpenFile(tmpFilePath, os.O_WRONLY|os.O_CREATE|os.O_TRUNC, 0666)
 	if err != nil {
 		return result, err
